@@ -31,6 +31,12 @@ def main():
     src = os.path.realpath(os.environ.get("FESIM_REPO_SRC", "/repo/src"))
     assert os.path.realpath(felupe.__file__).startswith(src + "/"), (felupe.__file__, src)
     warnings.simplefilter("ignore")
+    try:  # progress bars (verbose=True) must not start a monitor thread or read the terminal
+        import tqdm
+
+        tqdm.tqdm.monitor_interval = 0
+    except Exception:
+        pass
 
     from . import kernel
 
